@@ -1414,6 +1414,30 @@ class SObj:
             return m["prop." + name](self)
         if name.startswith("sym_") or name.startswith("__"):
             raise AttributeError(name)
+        # a method / property the sidecar does not name, but which the REAL class defines (e.g. a helper that a
+        # refactoring split off): use its real text, instrumented like the function under contract
+        real = None
+        try:
+            real = object.__getattribute__(self, "_o_real")
+        except AttributeError:
+            pass
+        if real is not None and has_ctx():
+            import importlib
+            import inspect
+
+            mod, clsname = real
+            cls = getattr(importlib.import_module(mod), clsname, None)
+            attr = inspect.getattr_static(cls, name, None) if cls is not None else None
+            owner = next((k for k in (cls.__mro__ if cls is not None else ()) if name in vars(k)), None)
+            if attr is not None and owner is not None and (inspect.isfunction(attr) or isinstance(attr, property)):
+                u_ = getattr(ctx(), "unit", None)
+                if u_ is not None:
+                    fn = u_.load(owner.__module__, f"{owner.__qualname__}.{name}")
+                    if isinstance(attr, property):
+                        return fn(self)
+                    return lambda *a, **k: fn(self, *a, **k)
+            if attr is not None and owner is not None and not hasattr(attr, "__get__"):
+                return attr  # a class-level constant (compiled regex, default value, ...)
         raise Unsupported(f"unmodelled attribute {object.__getattribute__(self, '_o_cls')}.{name}")
 
     def __setattr__(self, name, v):
